@@ -36,6 +36,47 @@ def meaning(tok):
     return tok.value
 
 
+_UNESC = {'n': '\n', 't': '\t', 'r': '\r', 'f': '\f', 'b': '\b'}
+
+
+def ref_meaning(cls, s):
+    """The documented meaning of a lexeme, written independently of the code under test (docs/ and the beancount lexer it cites):
+    strings drop the quotes and read `\\x` as the escape for n t r f b, else as x itself; an inline comment is what follows the `;` and
+    the blanks (U+0020 only) after it; tags and links drop their sigil, meta keys their colon; accounts, currencies, indents and
+    flags mean their own text.  None = no independent reading here (block comments: bcindent / seq cells; numbers and dates: own cells)."""
+    if cls is models.EscapedString:
+        body = s[1:-1]
+        out = ''
+        k = 0
+        n = len(body)
+        while k < n:
+            ch = body[k]
+            if ch == '\\' and k + 1 < n:
+                nx = body[k + 1]
+                if nx == '\n':
+                    return None      # backslash + line feed: beancount reads a line feed, this library keeps both characters (observed, round-trips; not asserted either way)
+                out = out + (_UNESC[nx] if nx in _UNESC else nx)
+                k += 2
+            else:
+                out = out + ch
+                k += 1
+        return out
+    if cls is models.InlineComment:
+        k = 1
+        while k < len(s) and s[k] == ' ':
+            k += 1
+        return s[k:]
+    if cls in (models.Tag, models.Link):
+        return s[1:]
+    if cls is models.MetaKey:
+        return s[:-1]
+    if cls in (models.Account, models.Currency, models.Indent, models.PostingFlag, models.TransactionFlag, models.Whitespace, models.Newline):
+        return s
+    if cls is models.Bool:
+        return s == 'TRUE'
+    return None
+
+
 def from_meaning(cls, m):
     if cls is models.BlockComment:
         return cls.from_value(m[1], indent=m[0])
@@ -99,6 +140,9 @@ def make_codec(cls, n, twin=False, value_to_text=True):
             return
         m = meaning(tok)
         check(parse_pair(cls, s) == m, 'value differs from _parse_value(raw_text)', R(s))
+        ref = ref_meaning(cls, s)
+        if ref is not None:
+            check(m == ref, 'the value of the lexeme differs from its documented meaning:', R(s), 'reads', R(m), 'documented', R(ref))
         if not value_to_text:
             return   # value -> text goes through format(), where CrossHair realises: see the fmt_* cells
         t2 = from_meaning(cls, m)
